@@ -19,10 +19,13 @@ CONSTANTS FlipBits,     \* bit positions the relay flips: 0..127 = the clear-tex
           Retypes       \* 16*type + subtype the relay writes into the clear-text inner header (ciphertext untouched)
 
 Senders == {"A", "M"}                       \* endpoints that both reach T through R
-SimpleAlter == {"none", "truncate", "splice", "replayed", "garbage", "newcounter"}
+SimpleAlter == {"none", "truncate", "splice", "replayed", "garbage", "newcounter", "recverr_self", "recverr_third"}
         \* splice: header of this sender's packet + ciphertext of the other sender's packet
         \* replayed: the unaltered inner packet a second time
         \* newcounter: a fresh, never used counter in the clear-text header over the genuine ciphertext
+        \* recverr_self / recverr_third: instead of the inner packet the relay forwards a recv_error (16 clear-text bytes, no
+        \*   key involved) that names the index of the sender's relayed tunnel / of the target's DIRECT tunnel with a third
+        \*   host: no endpoint key authenticates it, so it must not be acted on for anybody
 InnerAlter == SimpleAlter \cup {"flipbit", "retype"}
 Claims == {"own", "other"}                  \* relay record used: the sender's own leg, or the other endpoint's leg
 
